@@ -49,9 +49,11 @@ prop("C19", [
       bounds="all u16 / u8 arguments", funcs=["MessageType::from<u16>", "MessageType::as_u16", "MessageMethod::try_from", "MessageClass::try_from", "MessageType::encode", "AttributeType::*", "AlgorithmId::from", "AddressFamily::try_from"]),
     H("stunrs", VAL + "c19_error_code_total", timeout=300, mem_gb=3, covers=1, stubs=[NOFMT],
       bounds="all u16 error codes, fixed 3-byte reason", funcs=["types::ErrorCode::new/class/number/reason"]),
-    H("stunrs", VAL + "c19_password_algorithms_clone_mutate", timeout=900, mem_gb=16, covers=2, stubs=[NOFMT],
-      bounds="0 or 1 element, clone, one add on either copy, arbitrary algorithm ids",
-      funcs=["PasswordAlgorithms::add/clone/password_algorithms"]),
+] + [
+    H("stunrs", VAL + "c19_password_algorithms_clone_" + n, timeout=900, mem_gb=10, covers=None, stubs=[NOFMT],
+      bounds="PasswordAlgorithms (%s), clone, one add on the %s, arbitrary algorithm ids" % (("holding one algorithm" if "one" in n else "empty"), ("original" if n.endswith("orig") else "clone")),
+      funcs=["PasswordAlgorithms::add/clone/password_algorithms"]) for n in ("empty_orig", "empty_copy", "one_orig", "one_copy")
+] + [
     H("stunrs", VAL + "c19_unknown_attributes_clone_mutate", timeout=300, mem_gb=4, covers=1, stubs=[NOFMT],
       bounds="1 element, clone, one add on either copy, arbitrary u16 values",
       funcs=["UnknownAttributes::add/clone/attributes"]),
@@ -63,7 +65,7 @@ prop("C19", [
       sample="'obMatJos2' 'aaa' U+00C3 U+00A9 'xyz'")
     for (k, c) in ((0, 1), (1, 1), (2, 1), (3, 1), (4, 1), (0, 2), (1, 2))
 ] + [
-    H("stunrs", NONCE + "c19_nonce_cookie_ascii_k%d" % k, timeout=900, mem_gb=8, covers=None, stubs=[NOFMT, QS_STRUCT],
+    H("stunrs", NONCE + "c19_nonce_cookie_ascii_k%d" % k, timeout=900, mem_gb=8, covers=(0 if k < 4 else 2), stubs=[NOFMT, QS_STRUCT],
       tier="quick" if k == 4 else "thorough",
       bounds="nonce = 'obMatJos2' + %d arbitrary printable ASCII chars (base64 and non-base64 flag characters)" % k,
       funcs=["Nonce::is_nonce_cookie", "Nonce::security_features"]) for k in (3, 4, 6)
